@@ -1,6 +1,6 @@
 (* C18 - Rollback restores, commit keeps: the auditable store is atomic over
    any history.  Property theorems only; proofs are in Auditable/Proofs.v. *)
-From RV Require Import Auditable.Model Auditable.Proofs.
+From RV Require Import Auditable.Model Auditable.Proofs Auditable.Batch Auditable.BatchProofs.
 
 (* Two wrappers over one store, any interleaving: after every add/remove the
    store is the set the operation prescribes, after commit it is unchanged,
@@ -43,6 +43,14 @@ Theorem C18_idempotent : forall s w,
   /\ store (a_rollback (a_commit s w) w) = store s.
 Proof. exact rollback_idempotent. Qed.
 Print Assumptions C18_idempotent.
+
+(* Bulk adds (Graph.addN / ConjunctiveGraph.addN go through Store.addN, a loop
+   of add() calls): only the content after the whole batch can be observed; the
+   checker rebuilds the intermediate contents from the specification and judges
+   the flattened history.  The model meets it for every history with batches. *)
+Theorem C18_batches : forall c, NoDup (b_init c) -> bspec_ok c (bmodel_obs c) = true.
+Proof. exact bspec_ok_model. Qed.
+Print Assumptions C18_batches.
 
 (* The code as it was before the "fix:" commit (finding F2) does not have the
    property: witness history remove; re-add; rollback. *)
